@@ -1,6 +1,7 @@
 (* C13 — debugger writes are confined to user space and to the named target. *)
 From Coq Require Import ZArith.
 From Lace Require Import Word Machine Isa Vm Asm Dbg DbgProofs.
+From Lace Require Examples.
 Open Scope N_scope.
 
 (** `move` to a register changes that register and nothing else. *)
@@ -48,3 +49,13 @@ Theorem C13_readonly : forall env c d st,
   exists d', run_command env c d st = CmdNone d' st /\ d_bps d' = d_bps d /\ d_status d' = d_status d.
 Proof. exact inspection_changes_nothing. Qed.
 Print Assumptions C13_readonly.
+
+(** Non-vacuity: `goto x0000` names a target outside user space (the hypotheses of C13_refuse);
+    `move x3001 7` names one inside and writes exactly that word. *)
+Example C13_nonvacuous :
+  (writes_cmd (CGoto (MAddr 0)) = Some (MAddr 0) /\
+   forall a d', resolve_location Examples.ex_env (set_icount (Examples.ex_dbg nil) 0) Examples.ex_state (MAddr 0) = (Some a, d') ->
+                in_userspace Examples.ex_state a = false) /\
+  exists d', run_command Examples.ex_env (CMove (LMem (MAddr 12289)) 7) (Examples.ex_dbg nil) Examples.ex_state =
+             CmdNone d' (set_mem Examples.ex_state 12289 7).
+Proof. split; [exact Examples.ex_outside_target|exact Examples.ex_move_mem]. Qed.
